@@ -460,6 +460,34 @@ func integrations(r *rep.Run) {
 			outgoing, _ = metadata.FromOutgoingContext(ctx)
 			return nil
 		})
+		// a middle service: its context already carries outgoing metadata (forwarded from its own caller) - an older xid under the
+		// same key, or unrelated keys - when the client interceptor adds the xid bound to the context
+		for _, pre := range []struct {
+			name string
+			md   metadata.MD
+		}{
+			{"stale-xid-in-outgoing", metadata.Pairs("tx_xid", "10.9.9.9:8091:777")},
+			{"stale-xid-upper-in-outgoing", metadata.MD{"TX_XID": []string{"10.9.9.9:8091:778"}}},
+			{"other-keys-in-outgoing", metadata.Pairs("k", "v")},
+		} {
+			pctx := metadata.NewOutgoingContext(octx, pre.md.Copy())
+			var out2 metadata.MD
+			sgrpc.ClientTransactionInterceptor(pctx, "/svc/m", nil, nil, nil, func(ctx context.Context, method string, req, reply interface{}, cc *grpc.ClientConn, opts ...grpc.CallOption) error {
+				out2, _ = metadata.FromOutgoingContext(ctx)
+				return nil
+			})
+			// what grpc puts on the wire: keys lower-cased, values of equal keys concatenated in order
+			wire := metadata.MD{}
+			for k, v := range out2 {
+				wire[strings.ToLower(k)] = append(wire[strings.ToLower(k)], v...)
+			}
+			var callee context.Context
+			sgrpc.ServerTransactionInterceptor(metadata.NewIncomingContext(context.Background(), wire), nil, nil, func(ctx context.Context, req interface{}) (interface{}, error) {
+				callee = ctx
+				return nil, nil
+			})
+			participantChecks(r, "grpc", xid, callee, pre.name)
+		}
 		for _, variant := range []string{"as-sent", "lower-case-key"} {
 			md := metadata.MD{}
 			for k, v := range outgoing {
